@@ -13,6 +13,7 @@ import (
 
 	abci "github.com/cometbft/cometbft/abci/types"
 	"github.com/cometbft/cometbft/crypto/ed25519"
+	simapp "github.com/KiraCore/sekai/app"
 	slashingtypes "github.com/KiraCore/sekai/x/slashing/types"
 	staking "github.com/KiraCore/sekai/x/staking"
 	stakingtypes "github.com/KiraCore/sekai/x/staking/types"
@@ -451,7 +452,26 @@ func b2i(b bool) int {
 }
 
 func newStakeEp(r *Rec, prop string, n int, label string) *stakeEp {
-	w := NewWorld(WorldOpts{NAcc: n + 1, NVal: n, SudoAccs: []int{n}, CommitDelay: true})
+	return newStakeEpGenesis(r, prop, n, label, nil)
+}
+
+// newStakeEpGenesis: the chain starts from a genesis in which some validators are not active (an export taken while they
+// were paused / inactive / jailed, imported into a new chain): the consensus engine must be handed exactly the active ones
+func newStakeEpGenesis(r *Rec, prop string, n int, label string, genesis map[int]stakingtypes.ValidatorStatus) *stakeEp {
+	w := NewWorld(WorldOpts{NAcc: n + 1, NVal: n, SudoAccs: []int{n}, CommitDelay: true, MutGenesis: func(w *World, gs simapp.GenesisState) {
+		if len(genesis) == 0 {
+			return
+		}
+		cdc := w.app.AppCodec()
+		var sg stakingtypes.GenesisState
+		cdc.MustUnmarshalJSON(gs[stakingtypes.ModuleName], &sg)
+		for i := range sg.Validators {
+			if st, ok := genesis[i]; ok {
+				sg.Validators[i].Status = st
+			}
+		}
+		gs[stakingtypes.ModuleName] = cdc.MustMarshalJSON(&sg)
+	}})
 	e := &stakeEp{r: r, w: w, n: n, prop: prop, label: label, promoted: map[int]bool{}}
 	// small windows so that downtime and unjail deadlines are reached within an episode
 	ctx := w.KeeperCtx()
@@ -468,6 +488,27 @@ func newStakeEp(r *Rec, prop string, n int, label string) *stakeEp {
 	r.Mark(label)
 	r.Op(fmt.Sprintf("stake reset n=%d", n), "ok")
 	r.Op(fmt.Sprintf("stake params mc=%d mm=%d rd=%d pct=%s dt=%d minv=%d ujt=%d", np.MischanceConfidence, np.MaxMischance, np.MischanceRankDecreaseAmount, np.InactiveRankDecreasePercent.String(), np.DowntimeInactiveDuration, np.MinValidators, np.UnjailMaxTime), "ok")
+	if len(genesis) > 0 {
+		var vs []int
+		for i := range genesis {
+			vs = append(vs, i)
+		}
+		sort.Ints(vs)
+		for _, i := range vs {
+			r.Op(fmt.Sprintf("stake genesis %d %s", i, stLetter(genesis[i])), "ok")
+		}
+		r.Op("stake obs", e.obs(ctx))
+		// C05 at genesis import: the validators handed to the consensus engine by InitChain are exactly the active ones
+		inV := map[int]bool{}
+		for _, v := range w.valSet.Validators {
+			inV[e.valIndexByConsAddr(v.Address)] = true
+		}
+		for i, st := range e.statuses(ctx) {
+			if inV[i] != (st == "A") {
+				r.Fail("C05/genesis-import/set-mismatch", fmt.Sprintf("%s: InitChain handed validator %d (status %s in the imported genesis) to the consensus engine: %v", label, i, st, inV[i]), nil)
+			}
+		}
+	}
 	return e
 }
 
@@ -553,6 +594,30 @@ func runStake(r *Rec, prop string) {
 		if okEnd {
 			e.block(nil, nil, []stakeOp{{"unpause", 0}}, 6*time.Second)
 			e.block(nil, nil, []stakeOp{{"activate", 0}}, 60*time.Second)
+		}
+	}
+
+	// ---------- chains that start from a genesis with paused / inactive / jailed validators, then bring them back
+	for gi, g := range []map[int]stakingtypes.ValidatorStatus{
+		{1: stakingtypes.Paused},
+		{1: stakingtypes.Inactive, 2: stakingtypes.Paused},
+		{2: stakingtypes.Jailed},
+		{0: stakingtypes.Paused, 3: stakingtypes.Inactive},
+	} {
+		e := newStakeEpGenesis(r, prop, 4, fmt.Sprintf("genesis-import-%d", gi), g)
+		e.block(nil, nil, nil, 6*time.Second)
+		var txs []stakeOp
+		for v := 0; v < 4; v++ {
+			switch g[v] {
+			case stakingtypes.Paused:
+				txs = append(txs, stakeOp{"unpause", v})
+			case stakingtypes.Inactive:
+				txs = append(txs, stakeOp{"activate", v})
+			}
+		}
+		e.block(nil, nil, txs, 60*time.Second)
+		for i := 0; i < 4 && !e.halt; i++ {
+			e.block(map[int]bool{i % 4: i%2 == 0}, nil, nil, 6*time.Second)
 		}
 	}
 
